@@ -49,6 +49,10 @@ THEOREMS = [
     "XalanModel.Props.C20.vector_insertNSelf_refines",
     "XalanModel.Props.C20.vector_resizeSelf_refines",
     "XalanModel.Props.C20.vector_alias_as_written_counterexample",
+    "XalanModel.Props.C20.vector_placement_discipline",
+    "XalanModel.Props.C20.vector_copy_backward_shift_right",
+    "XalanModel.Props.C20.vector_copy_forward_shift_left",
+    "XalanModel.Props.C20.vector_insert_forward_copy_counterexample",
     "XalanModel.Props.C20.map_step_refines",
     "XalanModel.Props.C20.map_refines",
     "XalanModel.Props.C20.map_copy_refines",
@@ -78,6 +82,11 @@ CORPUS = [
     # minimised past failures / DESIGN §6 candidates run first
     ("vec", ["vec push 0 1", "vec push 0 2", "vec push 0 3", "vec push 0 4", "vec reserve 0 8", "vec insself 0 0 1 2"]),
     ("vec", ["vec push 0 1", "vec push 0 2", "vec resizeself 0 9 0"]),
+    # in-place insert whose range stays inside the old contents, more than 2n elements behind the position: the tail must be
+    # shifted with copy_backward (a forward element-wise copy smears it; invisible for memmove-able element types)
+    ("vec", ["vec newcap 0 9", "vec push 0 1", "vec push 0 2", "vec push 0 3", "vec push 1 7", "vec insr 0 0 1 0 1"]),
+    ("vec", ["vec newcap 0 12", "vec push 0 1", "vec push 0 2", "vec push 0 3", "vec push 0 4", "vec push 0 5", "vec insn 0 1 2 9",
+             "vec ins1 0 0 8"]),
     ("vec", ["vec push 0 1", "vec push 0 2", "vec insself 0 2 3 0"]),
     ("deq", ["deq new 0 10 0", "deq resize 0 4"]),
     ("deq", ["deq new 0 3 8", "deq resize 0 0"]),
@@ -96,6 +105,8 @@ CORPUS = [
     # default-parameter map / set grown through the three first rehash points (41st, 88th, 188th distinct insertion)
     ("map", ["map ins 0 %d %d" % (100 + 2 * i, i) for i in range(190)] + ["map find 0 180", "map erase 0 274", "map find 0 476"]),
     ("set", ["set ins 0 %d" % (100 + 2 * i) for i in range(190)] + ["set count 0 180", "set erase 0 274", "set count 0 476"]),
+    ("bmp", ["bmp new 0 17", "bmp set 0 0", "bmp set 0 7", "bmp set 0 8", "bmp set 0 16", "bmp toggle 0 7", "bmp clear 0 8",
+             "bmp toggle 0 3", "bmp clearall 0", "bmp set 0 15"]),
     ("lst", ["lst pushb 0 1", "lst pushb 0 2", "lst save 0 0 1", "lst eraseat 0 0", "lst pushf 0 5", "lst deref 0 0",
              "lst pushb 1 7", "lst splice 1 0 0 1", "lst deref 0 1"]),
 ]
@@ -227,6 +238,9 @@ def features(kind, mlines):
                 f.add("spare-capacity")
     elif kind == "vec":
         f.add("vec")
+    elif kind == "bmp":
+        if any(" 1" in l.split(":", 1)[-1] for l in mlines):
+            f.add("bit-set")
     return f
 
 
@@ -238,14 +252,24 @@ class Runner:
         self.model = ctx.exe("xm_c20")
         self.h_cont = common.build_harness("c20_containers", ["c20_containers.cpp"], flavor="hooks", sanitize=True,
                                            link_repo=False)
+        # same harness over an element class with user-provided copy/assignment/destructor (see the harness)
+        self.h_elem = common.build_harness("c20_containers_elem", ["c20_containers.cpp"], flavor="hooks", sanitize=True,
+                                           link_repo=False, extra=["-DC20_ELEM"])
         self.h_str = common.build_harness("c20_string", ["c20_string.cpp"], flavor="hooks", sanitize=True,
                                           extra=["-DNDEBUG"]) if with_string else None
 
     def harness(self, kind):
-        return self.h_str if kind == "str" else self.h_cont
+        return self.h_str if kind in ("str", "bmp") else self.h_cont
 
-    def run(self, kind, seqs, tag):
-        env = {"ASAN_OPTIONS": "detect_leaks=0:abort_on_error=0"} if kind == "str" else None
+    elem = False   # which element type the container streams currently use (toggled by run(ctx))
+
+    def run(self, kind, seqs, tag, elem=None):
+        if elem is None:
+            elem = self.elem and kind in ("vec", "map", "deq", "lst")
+        env = {"ASAN_OPTIONS": "detect_leaks=0:abort_on_error=0"} if kind in ("str", "bmp") else None
+        if elem:
+            return run_stream(self.h_elem, self.model, seqs, self.work, tag + "_elem", env,
+                              timeout=(900 if self.ctx.thorough else 30) if len(seqs) > 1 else 3)
         # a hang (e.g. a corrupted list that never reaches end()) is cut off and treated like a crash
         return run_stream(self.harness(kind), self.model, seqs, self.work, tag, env,
                           timeout=(900 if self.ctx.thorough else 30) if len(seqs) > 1 else 3)
@@ -286,20 +310,21 @@ def judge(ctx, rn, kind, ops, st, agree_box):
     upto = ops[:idx + 1]
     if status in ("std", "crash"):
         word = "std-mismatch" if status == "std" else "crash"
-        key = "%s.%s[%s]: %s" % (kind, word, tag, " ; ".join(upto))
+        kname = kind + ("/elem" if rn.elem else "")
+        key = "%s.%s[%s]: %s" % (kname, word, tag, " ; ".join(upto))
         if not known(ctx, key):
             small = rn.shrink(kind, upto, status, tag)
-            key = "%s.%s[%s]: %s" % (kind, word, tag, " ; ".join(small))
+            key = "%s.%s[%s]: %s" % (kname, word, tag, " ; ".join(small))
             upto = small
         what = ("observable state differs from the std:: reference: impl=%r expected(model)=%r" % (iv, mv) if status == "std"
                 else "harness aborted (sanitizer / assertion / crash): " + iv[-900:])
-        ctx.fail(key, what, {"kind": kind, "ops": upto})
+        ctx.fail(key, what, {"kind": kind, "ops": upto, "elem": rn.elem})
     else:
         agree_box[0] = False
         small = rn.shrink(kind, upto, "model", None)
         r, _, _ = rn.run(kind, [small], "shrink")
         ctx.extra.setdefault("model_disagreements", []).append(
-            {"kind": kind, "ops": small, "impl": r[0][2], "model": r[0][3]})
+            {"kind": kind, "elem": rn.elem, "ops": small, "impl": r[0][2], "model": r[0][3]})
 
 
 def exhaustive_small(kind):
@@ -366,6 +391,7 @@ def run(ctx):
         "deq": (800, 60) if not T else (10000, 200),
         "lst": (1200, 60) if not T else (15000, 200),
         "str": (1500, 50) if not T else (20000, 150),
+        "bmp": (300, 40) if not T else (4000, 120),
     }
     gens = {
         "vec": lambda: G.gen_vec(r, plan["vec"][1], alias=(nbox[0] % 3 == 0)),
@@ -374,6 +400,7 @@ def run(ctx):
         "set": lambda: G.gen_set(r, plan["set"][1]),
         "deq": lambda: G.gen_deq(r, plan["deq"][1], multi=(nbox[0] % 6 == 0 and nbox[0] < 1200)),
         "lst": lambda: G.gen_lst(r, plan["lst"][1]),
+        "bmp": lambda: G.gen_bmp(r, plan["bmp"][1]),
         "str": lambda: G.gen_str(r, plan["str"][1], defects=(nbox[0] % 5 == 0 and nbox[0] < 1500)),
     }
     big_box = [False]
@@ -384,9 +411,9 @@ def run(ctx):
     agree = [True]
     unrun = [0]
     total_leak = 0
-    kinds = ["vec", "map", "set", "deq", "lst", "str"]
+    kinds = ["vec", "map", "set", "deq", "lst", "str", "bmp"]
     if nolib:
-        kinds.remove("str")
+        kinds.remove("str"); kinds.remove("bmp")
         ctx.oblige("XalanDOMString correspondence was run (VERIF_C20_NOLIB unset)", "correspondence", False,
                    "VERIF_C20_NOLIB=1 is for mutation trials only")
     for kind in kinds:
@@ -399,40 +426,42 @@ def run(ctx):
         if T:
             seqs.extend(exhaustive_small(kind))
         seqs = [s for s in seqs if s]
-        if kind == "vec":
-            # sequences ending in an aliasing request may abort the harness on the unrepaired tree: run them last
-            seqs = ([s for s in seqs if s[-1].split()[1] not in ("insself", "resizeself")] +
-                    [s for s in seqs if s[-1].split()[1] in ("insself", "resizeself")])
-            ncorpus = 0
-        res, leaked, mseq = rn.run(kind, seqs, kind)
-        total_leak += leaked
-        nbad = 0
-        for si, st in enumerate(res):
-            ops = seqs[si]
-            feats = features(kind, mseq[si])
+        for elem in ([False, True] if kind in ("vec", "map", "deq", "lst") else [False]):
+            rn.elem = elem
             if kind == "vec":
-                nontriv = len(ops) > 3 and any(o.split()[1] in ("ins1", "insn", "insr", "erase", "resize", "copy", "assign",
-                                                                "insself", "resizeself") for o in ops)
-            else:
-                nontriv = bool(feats)
-            ctx.case(nontrivial_key=" ; ".join(ops) if nontriv else None,
-                     sample={"kind": kind, "ops": ops} if si == ncorpus else None,
-                     cls="%s:len<=10" % kind if len(ops) <= 10 else "%s:len<=40" % kind if len(ops) <= 40 else "%s:len>40" % kind)
-            for ft in feats:
-                ctx.hist["reach:%s:%s" % (kind, ft)] = ctx.hist.get("reach:%s:%s" % (kind, ft), 0) + 1
-            if st[0] == "unrun":
-                unrun[0] += 1
-            elif st[0] != "ok":
-                nbad += 1
-                if nbad <= 12 or known(ctx, "%s.%s[%s]" % (kind, "std-mismatch" if st[0] == "std" else "crash",
-                                                              (G.tags(kind, ops) or ["?"] * len(ops))[st[1]])):
-                    judge(ctx, rn, kind, ops, st, agree)
+                # sequences ending in an aliasing request may abort the harness on the unrepaired tree: run them last
+                seqs = ([s for s in seqs if s[-1].split()[1] not in ("insself", "resizeself")] +
+                        [s for s in seqs if s[-1].split()[1] in ("insself", "resizeself")])
+                ncorpus = 0
+            res, leaked, mseq = rn.run(kind, seqs, kind)
+            total_leak += leaked
+            nbad = 0
+            for si, st in enumerate(res):
+                ops = seqs[si]
+                feats = features(kind, mseq[si])
+                if kind == "vec":
+                    nontriv = len(ops) > 3 and any(o.split()[1] in ("ins1", "insn", "insr", "erase", "resize", "copy", "assign",
+                                                                    "insself", "resizeself") for o in ops)
                 else:
-                    ctx.hist["unjudged-failing-sequences"] = ctx.hist.get("unjudged-failing-sequences", 0) + 1
-        for o in seqs[ncorpus:ncorpus + 150]:
-            for op in o:
-                t = op.split()
-                ctx.hist["op:%s.%s" % (t[0], t[1])] = ctx.hist.get("op:%s.%s" % (t[0], t[1]), 0) + 1
+                    nontriv = bool(feats)
+                ctx.case(nontrivial_key=("elem: " if elem else "") + " ; ".join(ops) if nontriv else None,
+                         sample={"kind": kind, "ops": ops} if si == ncorpus else None,
+                         cls="%s:len<=10" % (kind + ("/elem" if elem else "")) if len(ops) <= 10 else "%s:len<=40" % kind if len(ops) <= 40 else "%s:len>40" % kind)
+                for ft in feats:
+                    ctx.hist["reach:%s:%s" % (kind, ft)] = ctx.hist.get("reach:%s:%s" % (kind, ft), 0) + 1
+                if st[0] == "unrun":
+                    unrun[0] += 1
+                elif st[0] != "ok":
+                    nbad += 1
+                    if nbad <= 12 or known(ctx, "%s.%s[%s]" % (kind, "std-mismatch" if st[0] == "std" else "crash",
+                                                                  (G.tags(kind, ops) or ["?"] * len(ops))[st[1]])):
+                        judge(ctx, rn, kind, ops, st, agree)
+                    else:
+                        ctx.hist["unjudged-failing-sequences"] = ctx.hist.get("unjudged-failing-sequences", 0) + 1
+            for o in seqs[ncorpus:ncorpus + 150]:
+                for op in o:
+                    t = op.split()
+                    ctx.hist["op:%s.%s" % (t[0], t[1])] = ctx.hist.get("op:%s.%s" % (t[0], t[1]), 0) + 1
     ctx.oblige("correspondence: real containers / XalanDOMString = Lean models on every generated request log", "correspondence",
                agree[0], json.dumps(ctx.extra.get("model_disagreements", [])[:3]))
     ctx.oblige("every generated sequence was evaluated on the real code", "correspondence", unrun[0] == 0,
